@@ -41,6 +41,8 @@ class QuaToSM(ConvertBase):
         sms.background = qua.background_file
         sms.sample_start = qua.song_preview_time
         sms.sample_length = 10
-        sms.offset = qua.stack().offset.min()
+        # Beat 0 of the .sm file is the first tempo point (not the earliest
+        # object of any kind: a scroll velocity may come before it)
+        sms.offset = float(sm.bpms.first_offset()) if len(sm.bpms) else 0.0
 
         return sms
